@@ -42,6 +42,7 @@ class Engine:
         self.reg.loop_index_hook = lambda ip, i: seqtheory.add_index(ip, i, loop=True)
         self.reg.index_used_hook = seqtheory.index_used
         self.reg.all_hook = seqtheory.all_hook
+        self.reg.any_hook = seqtheory.any_hook
         self.reg.scatter_assign_hook = seqtheory.scatter_assign_hook
         self.reg.array_equal_hook = seqtheory.array_equal_hook
         self.reg.keyed_map_hook = lambda ip, S, kf, vf, desc: seqtheory.keyed_map(ip, S, kf, vf, None, desc, require_distinct=False)
@@ -72,7 +73,48 @@ def _worker_init(repo):
     _WORKER_ENGINE = Engine(repo)
 
 
+def _blank_result(item, why):
+    key, cname, tier, timeout_ms = item
+    return {"key": key, "case": cname, "status": "unsupported", "paths": 0, "infeasible": 0, "unsupported": [f"{cname}: {why}"],
+            "vacuous": [], "inlined": [], "callees": [], "path_outcomes": {}, "seconds": 0.0, "obligations": []}
+
+
+class _ItemTimeout(BaseException):
+    pass
+
+
 def _worker_run(item):
+    """One work item under a wall-clock limit (VERIF_ITEM_S, default 900 s): an item that does not finish is reported as
+    out of reach (exit 2), never as a verdict, and never blocks the run."""
+    import signal
+    limit = int(float(os.environ.get("VERIF_ITEM_S", "600")))
+
+    def on_alarm(signum, frame):
+        raise _ItemTimeout()
+    old = None
+    try:
+        old = signal.signal(signal.SIGALRM, on_alarm)
+        signal.alarm(limit)
+    except Exception:
+        old = None
+    try:
+        return _worker_run_inner(item)
+    except _ItemTimeout:
+        return _blank_result(item, f"work item exceeded the wall-clock limit of {limit} s")
+    except Exception as e:
+        if "_ItemTimeout" in repr(e):        # the alarm went off inside a ctypes argument conversion
+            return _blank_result(item, f"work item exceeded the wall-clock limit of {limit} s")
+        raise
+    finally:
+        try:
+            signal.alarm(0)
+            if old is not None:
+                signal.signal(signal.SIGALRM, old)
+        except Exception:
+            pass
+
+
+def _worker_run_inner(item):
     """Explore one (function, case), discharge its obligations in-process (z3; cvc5 on unknowns / thorough) and
     return plain data."""
     import time as _t
@@ -157,7 +199,7 @@ def _run_pool(eng, items, workers):
     dead-lock); if no item completes for a long time the pool is abandoned and the remaining items are run in this process."""
     import multiprocessing as mp
     from concurrent.futures import ProcessPoolExecutor, wait, FIRST_COMPLETED
-    stall_s = float(os.environ.get("VERIF_STALL_S", "900"))
+    stall_s = float(os.environ.get("VERIF_STALL_S", "1200"))
     outs = [None] * len(items)
     ctx = mp.get_context("forkserver")
     ex = ProcessPoolExecutor(max_workers=min(workers, max(1, len(items))), mp_context=ctx, initializer=_worker_init, initargs=(eng.repo,))
@@ -173,19 +215,20 @@ def _run_pool(eng, items, workers):
             for f in done:
                 outs[futs[f]] = f.result()
     finally:
-        ex.shutdown(wait=not stalled, cancel_futures=True)
-        if stalled:
-            for p_ in list(getattr(ex, "_processes", {}).values()):
-                try:
-                    p_.kill()
-                except Exception:
-                    pass
+        procs = list((getattr(ex, "_processes", None) or {}).values())
+        ex.shutdown(wait=False, cancel_futures=True)
+        # never leave workers behind: a worker still inside a solver call would keep the interpreter from exiting
+        for p_ in procs:
+            try:
+                p_.kill()
+            except Exception:
+                pass
     if stalled:
-        print(f"ENGINE-NOTE worker pool made no progress for {stall_s:.0f}s; finishing {sum(o is None for o in outs)} items in-process", flush=True)
-        _worker_init(eng.repo)
+        print(f"ENGINE-NOTE worker pool made no progress for {stall_s:.0f}s; {sum(o is None for o in outs)} items reported as out of reach",
+              flush=True)
         for i, it in enumerate(items):
             if outs[i] is None:
-                outs[i] = _worker_run(it)
+                outs[i] = _blank_result(it, f"worker pool made no progress for {stall_s:.0f} s")
     return outs
 
 
